@@ -39,6 +39,20 @@ def generate(rng, tier, mult):
             if calc_max_input(n) > 0:
                 ops.append("write_sum z%d %s" % (calc_max_input(n), num(n)))
         scripts.append({"ops": ops, "meta": {"kind": "chunked", "ns": ns[i:i + per]}})
+    # chunked bodies reached in other ways: explicit Transfer-Encoding, Transfer-Encoding together with a Content-Length (chunked
+    # wins, both orders), body-less method with send_body_despite_method
+    variants = [[op_new("POST", "1.1", "http", "a.test", "/", [("transfer-encoding", "chunked")])],
+                [op_new("PUT", "1.1", "http", "a.test", "/", [("transfer-encoding", "chunked"), ("content-length", "100000")])],
+                [op_new("POST", "1.1", "http", "a.test", "/", [("content-length", "100000"), ("transfer-encoding", "chunked")])],
+                [op_new("GET", "1.1", "http", "a.test", "/", []), "despite"]]
+    picks = sorted(boundaries() | {1, 2, 100, 5000, 10248, 20496 + 9})
+    for v in variants:
+        ops = v + ["proceed", "write_head #4096", "proceed", "q_is_chunked"]
+        for n in picks:
+            ops.append("q_max_input %s" % num(n))
+            if calc_max_input(n) > 0:
+                ops.append("write_sum z%d %s" % (calc_max_input(n), num(n)))
+        scripts.append({"ops": ops, "meta": {"kind": "chunked", "ns": picks}})
     # sized bodies
     for n_total in [0, 1, 5, 1000, 70000]:
         ops = [op_new("POST", "1.1", "http", "a.test", "/", [("content-length", str(n_total))]), "proceed", "write_head #4096", "proceed", "q_is_chunked"]
@@ -76,6 +90,10 @@ def oracle(script, obs):
         if o == "panic":
             fails.append("op %d: panic" % i)
             break
+        if p[0] == "q_is_chunked" and o in ("true", "false"):
+            if (o == "true") != (script["meta"]["kind"] == "chunked"):
+                fails.append("body reported as %s, the request is sent %s" % ("chunked" if o == "true" else "length-delimited", script["meta"]["kind"]))
+                break
         if p[0] == "q_max_input":
             n = unnum(p[1])
             adv = unnum(o)
